@@ -85,6 +85,7 @@ type Variant struct {
 	Abs, Neg         int  // VOP3a modifiers
 	SDst             int  // VOP3b SDST, VOP3a-compare destination SGPR (7-bit code)
 	SDWA             bool // VOP2: src0 = SDWA
+	SDWAPad          bool // with SDWA: dst_unused = UNUSED_PAD (the default of the assembler) instead of UNUSED_PRESERVE
 	Off0, Off1       int  // DS offsets
 	SAddr            int  // FLAT scalar base (0x7F = off)
 	ImmOff           int  // FLAT 13-bit signed offset
@@ -163,6 +164,7 @@ func Variants(f Format) []Variant {
 			{Name: "src0=literal", Src0: CodeLit, Src1: v(RegSrc1)},
 			{Name: "src0=vcc-as-data", Src0: CodeVCC, Src1: v(RegSrc1), VCCData: true},
 			{Name: "sdwa", Src0: CodeSDWA, Src1: v(RegSrc1), SDWA: true},
+			{Name: "sdwa-pad", Src0: CodeSDWA, Src1: v(RegSrc1), SDWA: true, SDWAPad: true},
 		}
 	case VOP3:
 		vvv := Variant{Src0: v(RegSrc0), Src1: v(RegSrc1), Src2: v(RegSrc2), SDst: SRegDst}
@@ -242,7 +244,11 @@ func Encode(f Format, op int, va Variant, isVOP3b bool) []byte {
 		lo = uint32(op)<<25 | va.vdst()<<17 | uint32(va.Src1&0xff)<<9 | uint32(va.Src0)
 		if va.SDWA {
 			// src0=v10, dst_sel=WORD_1(5), dst_unused=PRESERVE(2), src0_sel=WORD_0(4), src1_sel=BYTE_2(2)
-			hi = uint32(RegSrc0) | 5<<8 | 2<<11 | 4<<16 | 2<<24
+			unused := uint32(2)
+			if va.SDWAPad {
+				unused = 0 // dst_unused=PAD: the other bits of an ACTIVE lane's destination become 0; inactive lanes keep theirs
+			}
+			hi = uint32(RegSrc0) | 5<<8 | unused<<11 | 4<<16 | 2<<24
 		}
 	case VOPC:
 		lo = 0x7C000000 | uint32(op)<<17 | uint32(va.Src1&0xff)<<9 | uint32(va.Src0)
